@@ -158,8 +158,9 @@ CHECKS = {
             "listener; TLC enumerates the field lattice (IHL 0..15 x total length around every bound x protocol; TCP segment length "
             "x data offset 0..15 x flags x peer reachability; every option layout of <= 3 bytes over the boundary alphabet; UDP/ICMP "
             "lengths; ~15k records); each record is built into bytes and pushed through the REAL Start loop of a real Canary (hook "
-            "VerifNew: socketpair instead of AF_PACKET), plus seeded random-byte frames and SYN floods across the table capacity; "
-            "after every frame a well-formed UDP probe must produce its event; a dying child process is attributed to the frame in flight.",
+            "VerifNew: socketpair instead of AF_PACKET), plus seeded random-byte frames, SYN floods across the table capacity, and knock "
+            "histories of 300-1000 distinct ports from one peer followed by a quiet period longer than the detector's window; "
+            "after every frame (and after the quiet period) a well-formed UDP probe must produce its event; a dying child process is attributed to the frame in flight.",
             "Exploration, not proof: frames outside the lattice and the random sample are not tried; ARP handling is unreachable "
             "from the configuration file and is left out; the quick tier reaches the table boundary by pre-filling it through a hook.",
             "TLA+ spec as generator of the frame lattice + liveness oracle, replay through the real receive loop in a crash-isolated child",
@@ -235,19 +236,22 @@ CHECKS = {
             "resources) with NO action that ends the process; TLC checks ProcessSurvives (and the C09 properties) over all interleavings of "
             "two connections and requires the unrecovered-panic deviation to violate it; MC_Dialogue generates dialogue shapes (canonical "
             "prefix, tokens of the service's grammar, truncation, repetition, raw byte classes, ending, segmentation, 1..3 concurrent "
-            "copies); for each of the 24 director-less services a core set (every grammar token and raw class after the greeting and after "
-            "the canonical dialogue) plus seeded shapes, 400-datagram concurrent bursts for the datagram services, and malformed ssh "
+            "copies); for each of the 24 director-less services a core set (every grammar token and raw class - never-ending escape sequences "
+            "longer than a line editor's buffer included - after the greeting and after the canonical dialogue, the peer leaving after every "
+            "prefix of the dialogue, every decimal number replaced by huge ones, ftp data connections in passive and active mode going quiet "
+            "or closing on either connection) plus seeded shapes, 400-datagram concurrent bursts for the datagram services, and malformed ssh "
             "channel requests through a real ssh client are executed against ONE real server in a crash-isolated child; the child dying, a "
-            "fresh echo connection not being served, or the heap growing while idle are violations; a death is attributed by re-running the "
-            "scenarios in flight alone.",
+            "fresh echo connection not being served (also after an idle period of 32 s, when timers started on a connection's behalf fire), "
+            "or the heap growing while idle are violations; a death is attributed by re-running the scenarios in flight (halving), with the idle wait when it came late.",
             "Exploration, not proof: inputs outside grammar+mutators are not tried; memory growth is a thresholded measurement; recovered "
             "panics are allowed and only counted.",
             "TLA+ spec (invariant + deviations) + TLC-generated dialogue shapes, model-based exploration of the real server in a child process",
             "DESIGN.md §3 C01"),
     "C09": ("exploration",
             "Same ConnLife.tla: ReleasedWhenQuiescent (invariant) and ReturnsAfterPeerGone (liveness under weak fairness, checked by TLC "
-            "without state constraint), with the three deviations found in the code (helper never exits, listener never closed, datagram "
-            "connection never reports end of input) each violating one of them; the C01 scenario set, cut at every protocol stage and ending "
+            "without state constraint) and SilentPeersExpire, with the deviations found in the code (helper never exits, listener never closed, datagram "
+            "connection never reports end of input, transfer on a second connection without deadline, line editor that stops looking at its connection) "
+            "and the regression peek_without_deadline each violating one of them; the C01 scenario set, cut at every protocol stage and ending "
             "in close, half-close, a single datagram, a peer that lingers 1.5 s before closing, or silence (each at the start, the middle and the end of every service's dialogue), runs against the real server in a child; after every peer is gone and the "
             "30 s idle timeout has passed the process must hold the same honeytrap goroutines (by creation site) and descriptors as before "
             "the first connection, no handler may still be inside handle(), and the idle process must not burn CPU.",
@@ -260,12 +264,13 @@ CHECKS = {
             "reply, back) with the invariants BackendSawExactlyClientSent, ClientSawExactlyBackendSent and OnlyBackendDialled; TLC draws "
             "exchanges (http: 1..3 requests over methods, targets, header sets incl. repeated names and with/without User-Agent, bodies "
             "0..64 KiB content-length or chunked, replies 0..64 KiB split at a cut point, pipelined or lock-step, 1..3 concurrent clients; "
-            "copy streams; dns datagrams), checks every interleaving of the model on each, and requires the deviations found in the code to "
+            "copy streams incl. half-closing clients; ssh sessions through ssh-proxy against an ssh backend fixture; dns datagrams; director hosts "
+            "with and without a port, two listener ports sharing one director), checks every interleaving of the model on each, and requires the deviations found in the code to "
             "violate the invariants; every exchange is played against the REAL server with the real socket listener and forward directors on "
             "loopback: harness backends record what they receive and answer, a decoy listener must never be contacted, and what backend and "
             "client saw is compared at the level the property names; relayed requests must be recorded in events.",
-            "The ssh-proxy leg is not covered (no ssh backend fixture); Host/Content-Length/Transfer-Encoding framing headers are "
-            "excluded from the header comparison.",
+            "Host/Content-Length/Transfer-Encoding framing headers are excluded from the header comparison; the ssh leg compares credentials, "
+            "channel requests and channel data, not the ssh transport itself.",
             "TLA+ spec + TLC on drawn exchanges, replay through the real proxies over loopback sockets",
             "DESIGN.md §3 C15"),
 }
